@@ -149,7 +149,7 @@ func runC03(c *Cfg) {
 		r.NontrivialH(uint64(9)<<40 | uint64(i))
 	})
 	// 2. random graphs: up to 12 nodes, 5 actions, nesting depth 3, cycles, re-connections, repeated runs
-	nr := c.Pick(30000, 400000)
+	nr := c.Pick(30000, 2000000)
 	parallel(c, nr, func(i int) {
 		rg := c.Rng("c03rand", i)
 		sc := scen.GenFlowScenario(rg, scen.GenOpts{MaxNodes: 12, MaxActions: 5, MaxDepth: 3, Failures: i%2 == 0, MaxVisits: 4, Batch: true})
@@ -225,7 +225,7 @@ func runC04Batch(c *Cfg) {
 func runC04(c *Cfg) {
 	r := c.Rep
 	defer runC04Batch(c)
-	nb := c.Pick(3000, 40000)
+	nb := c.Pick(3000, 200000)
 	parallel(c, nb, func(i int) {
 		rg := c.Rng("c04", i)
 		base := scen.GenFlowScenario(rg, scen.GenOpts{MaxNodes: 8, MaxActions: 4, MaxDepth: 4, Failures: true, MaxVisits: 3, Zoo: i%5 == 0, Batch: true})
